@@ -9,7 +9,7 @@ import "strings"
 func shorthandRanges(eco string) []string {
 	switch eco {
 	case "npm":
-		return []string{"^{d}.{d}.{d}", "^0.{d}.{d}", "^0.0.{d}", "~{d}.{d}.{d}", "{d}.x", "{d}.{d}.x", "{d}.X", "*", "{d}.{d}.{d} - {d}.{d}.{d}", "^{d}.{d}.{d}-{n}", "~{d}.{d}.{d}-{n}", "{d}.{d}.{d}"}
+		return []string{"^{d}.{d}.{d}", "^0.{d}.{d}", "^0.0.{d}", "~{d}.{d}.{d}", "{d}.x", "{d}.{d}.x", "{d}.X", "*", "{d}.{d}.{d} - {d}.{d}.{d}", "^{d}.{d}.{d}-{n}", "~{d}.{d}.{d}-{n}", "{d}.{d}.{d}", "^{d}.{d}", "^{d}", "^0.0", "~{d}.{d}", "~{d}"}
 	case "cargo":
 		return []string{"^{d}.{d}.{d}", "^0.{d}.{d}", "^0.0.{d}", "^{d}.{d}", "^0.0", "^{d}", "~{d}.{d}.{d}", "~{d}.{d}", "~{d}", "*", "{d}.*", "{d}.{d}.*", "{d}.{d}.{d}", "^{d}.{d}.{d}-{n}.{d}", "~{d}.{d}.{d}-{n}"}
 	case "composer":
